@@ -190,6 +190,20 @@ Definition probe (e : option entry) (remaining alpha beta : Z) : option Z :=
   | None => None
   end.
 
+(* Mate scores count the plies from the root of the search, but the table is shared by nodes at different plies: an
+   entry holds them counted from the node that stored it (fix: `score_to_table` / `score_from_table` of search.rs;
+   clamped to the score of a mate at the node itself on the way in, plain on the way out) *)
+Definition score_to_table (s real : Z) : Z :=
+  if SCORE_MAX - TABLE_MATE_MARGIN <? s then Z.min (- (SCORE_MIN + MATE_OFFSET_NODE)) (s + real)
+  else if s <? SCORE_MIN + TABLE_MATE_MARGIN then Z.max (SCORE_MIN + MATE_OFFSET_NODE) (s - real)
+  else s.
+Definition score_from_table (s real : Z) : Z :=
+  if SCORE_MAX - TABLE_MATE_MARGIN <? s then s - real
+  else if s <? SCORE_MIN + TABLE_MATE_MARGIN then s + real
+  else s.
+Definition entry_from_table (real : Z) (en : entry) : entry :=
+  mkEntry (score_from_table (e_score en) real) (e_pv en) (e_depth en) (e_flag en).
+
 (* the replacement rule of the interior store *)
 Definition store_node (t : table) (h : N) (ne : entry) : table :=
   match tfind t h with
@@ -208,7 +222,7 @@ Fixpoint node (rem : nat) (g : game) (st : sstate) (real alpha beta : Z) {struct
   if negb (s_running st) then (Aborted st, st)
   else
     let remaining := Z.of_nat rem in
-    let e := tfind (s_tbl st) (g_hash g) in
+    let e := option_map (entry_from_table real) (tfind (s_tbl st) (g_hash g)) in
     match probe e remaining alpha beta with
     | Some s => (Done s, st)
     | None =>
@@ -270,7 +284,7 @@ Fixpoint node (rem : nat) (g : game) (st : sstate) (real alpha beta : Z) {struct
                 | Done l =>
                     let flag := if l_bscore l <=? alpha then UpperBound
                                 else if beta <=? l_bscore l then LowerBound else Exact in
-                    let ne := mkEntry (l_bscore l) (l_best l) remaining flag in
+                    let ne := mkEntry (score_to_table (l_bscore l) real) (l_best l) remaining flag in
                     let st' := l_st l in
                     (Done (l_alpha l), with_tbl st' (store_node (s_tbl st') (g_hash g) ne))
                 | Aborted sa => (Aborted sa, sa)
